@@ -277,7 +277,8 @@ fn main() {
         vec![(1, 1), (1, 2), (2, 1), (2, 2), (3, 2), (2, 3), (4, 4), (64, 1), (1, 64), (8, 8)]
     };
     for &(m, n) in &dims {
-        let reps = if m * n <= 16 { 150 * scale } else { 6 * scale };
+        // the extracted model indexes lists in O(i): keep the huge layouts (up to 57356 felts) to a few vectors
+        let reps = if m * n <= 16 { 150 * scale } else if m * n <= 128 { 6 * scale } else { 3 };
         for _ in 0..reps {
             let mut v = if m <= 64 && n <= 64 { valid_pub(&mut rng, m, n) } else { vec![0; 12] };
             let mut tag = mutate(&mut rng, &mut v);
